@@ -123,6 +123,11 @@ theorem encInsn_unw {isWide : Bool} {lbl : Nat → Option Nat} {p k : Nat} {i : 
   | jsr t => exact encGoto_unw h
   | tableswitch d lo hi tb => exact encTableSwitch_unw h
   | lookupswitch d ps => exact encLookupSwitch_unw h
+  | invokeinterface idx desc =>
+    simp only [encInsn] at h
+    split at h
+    · cases h
+    · cases h; exact unwOk_nil _ _
   | _ => simp only [encInsn] at h; cases h; exact unwOk_nil _ _
 
 
